@@ -713,6 +713,10 @@ theorem params_rt_parseCCITT (f : FCCITT) (hv : f.validate = true) (hk : f.k ≤
   have hdv : maxDimV = 1048576 := by decide
   have hdp : maxDimP = 1048576 := by decide
   simp [FCCITT.validate, hdv] at hv
+  have hg : geoMax f.cols ≤ 65536 := by
+    have hh : (Gen.limits_MaxImageHeight : Int) = 65536 := by decide
+    unfold geoMax; rw [hh]; omega
+  have hg1 : 1 ≤ geoMax f.cols := by unfold geoMax; omega
   obtain ⟨lK, lE, lA, lC, lR, lB, lI, lD⟩ := lookups_ccitt f
   rw [hm] at hk
   have e1 : parseK f.toDict = (if f.k < 0 then -1 else f.k) := by
@@ -748,8 +752,12 @@ theorem params_rt_parseCCITT (f : FCCITT) (hv : f.validate = true) (hk : f.k ≤
     by_cases h0 : f.damaged > 0
     · simp [h0]; omega
     · simp [h0]; omega
+  have e9 : min f.rows (geoMax (if f.columns = 0 then 1728 else f.columns)) = f.rows := by
+    have := hv.2.1.2
+    unfold FCCITT.cols at this
+    omega
   unfold parseCCITTFax effCCITT
-  rw [e1, e2, e3, e4, e5, e6, e7, e8]
+  rw [e1, e2, e3, e4, e5, e6, e7, e8, e9]
 
 def effLZW (f : FLZW) : FLZW :=
   ⟨(effFlate f.toFlate).predictor, (effFlate f.toFlate).colors, (effFlate f.toFlate).bpc, (effFlate f.toFlate).columns, f.offByOne⟩
